@@ -277,6 +277,42 @@ func (m *minter) mint(kind, class, sub string, user, pass string) string {
 // mintSized: as mint; minLen > 0 asks for a value of at least minLen bytes (where the kind and class leave room for it:
 // the valid Basic credentials are what the configuration says).
 func (m *minter) mintSized(kind, class, sub string, user, pass string, minLen int) string {
+	return m.mintWith(kind, class, sub, user, pass, minLen, "")
+}
+
+// charVariant: characters inside a credential value which a decoder on the way (percent-decoding, form decoding, cookie
+// or header parsing) may refuse or rewrite. Credentials are opaque byte strings: the value registered - and known to the
+// remote system - is exactly the one minted, so a valid one stays valid and a rejected one stays rejected only if it
+// arrives unchanged. NoCookie: not a legal cookie-value character (RFC 6265), never placed in a cookie.
+type charVariant struct {
+	Name, Tail string
+	NoCookie   bool
+}
+
+var charVariants = []charVariant{
+	{Name: "percent-at-end", Tail: "_100%"},
+	{Name: "percent-non-hex", Tail: "%zz_x"},
+	{Name: "percent-truncated", Tail: "_%4"},
+	{Name: "percent-valid-escape", Tail: "%41%2Fb"},
+	{Name: "percent-encoded-percent", Tail: "_%25zz"},
+	{Name: "plus", Tail: "a+b+"},
+	{Name: "equals", Tail: "=x=="},
+	{Name: "mixed", Tail: "%+=%zz/~"},
+	{Name: "quotes", Tail: `_"q"_'`, NoCookie: true},
+}
+
+func charVariantByName(n string) charVariant {
+	for _, c := range charVariants {
+		if c.Name == n {
+			return c
+		}
+	}
+	panic("unknown character variant " + n)
+}
+
+// mintWith: as mintSized; tail != "": the value ends with these characters where the kind leaves room for it (reference
+// tokens, sessions, unstructured junk: the formats of Basic credentials and JWTs are fixed).
+func (m *minter) mintWith(kind, class, sub string, user, pass string, minLen int, tail string) string {
 	n := nextNonce()
 	var v string
 	pad := func(have int) string {
@@ -317,16 +353,16 @@ func (m *minter) mintSized(kind, class, sub string, user, pass string, minLen in
 		v = m.jwt(class, sub, minLen)
 	case "opaque":
 		v = fmt.Sprintf("op_%s_%d", class, n)
-		v += pad(len(v))
+		v += pad(len(v)) + tail
 	case "sess":
 		v = fmt.Sprintf("sess_%s_%d", class, n)
-		v += pad(len(v))
+		v += pad(len(v)) + tail
 	case "junk":
 		info.Sub = ""
 		switch class {
 		case "plain":
 			v = fmt.Sprintf("zzz%d", n)
-			v += pad(len(v))
+			v += pad(len(v)) + tail
 		case "threedots":
 			v = fmt.Sprintf("a%d%s.b.c", n, pad(8))
 		case "blank":
